@@ -301,6 +301,11 @@ func cmdCheck(args []string) int {
 		t1 := time.Now()
 		ex := &Explorer{Prog: P, Harness: hs.Name, SolverName: solver, TimeoutMs: to, Workers: *workers,
 			Bounds: b, ExpectPanic: hs.ExpectPanic}
+		if solver == "z3" {
+			// portfolio: z3 first with a short budget, cvc5 for what it gives up on
+			ex.TimeoutMs = 2500
+			ex.FallbackName, ex.FallbackTimeoutMs = "cvc5", to
+		}
 		ex.Run()
 		st := ex.Stats
 		rep := harnessReport{Name: hs.Name, Bounds: b, Solver: solver, Paths: st.Paths, Vacuous: st.Vacuous,
